@@ -453,14 +453,18 @@ class Inter:
                 if p.exit != "return":
                     return None
                 if pk in p.ptr_out and sym.field(p.ptr_out[pk], name) != sym.field(pk, name):
-                    return None
+                    # the pointee was (possibly) changed by a callee the pointer was handed on to: the same rule, one
+                    # level down (the depth counter bounds the descent)
+                    fv = self.inline(sym.field(p.ptr_out[pk], name), 3)
+                    if fv != self.inline(sym.field(pk, name), 3):
+                        return None
                 # the pointer handed on to another call that may write through it
                 for e in p.events:
                     if pk in e.raw or pk in e.args:
                         if e.target is None and e.name not in P.TRANSPARENT and not e.name.startswith(("std::vec::Vec::", "std::slice::", "core::slice::")):
                             return None
-                        if e.target is not None:
-                            return None
+                        if e.target is not None and pk not in p.ptr_out:
+                            return None   # (with a recorded final pointee the hand-on was accounted for above)
             return self.inline(sym.field(old, name), 3)
         finally:
             self._ft_depth -= 1
